@@ -2,6 +2,8 @@
    Statements only; proofs are in Cbor/EncProofs.v. *)
 From SF Require Import Base.Prelude Core.Events Core.EventsProofs Core.AdapterProofs Cbor.Enc Cbor.EncProofs Json.Enc Json.EncProofs Ubjson.Enc Ubjson.EncProofs Cbor.Parse.
 From SF Require Cbor.ParseVisitorProofs.
+From SF Require Import Gotype.Types Gotype.Fold.
+From SF Require Core.ExtendedProofs.
 
 (* CBOR encoder, every call sequence and every failure index k: when the writer
    fails at its k-th write (0-based) and keeps failing, and nevertheless every
@@ -56,3 +58,14 @@ Theorem C16_cbor_parser : forall k chunks evs0 e0,
     Ok (firstn (S k) evs0, if (length evs0 <=? k)%nat then e0 else eVisitor).
 Proof. exact SF.Cbor.ParseVisitorProofs.C16_cbor_parse_fail_spec. Qed.
 Print Assumptions C16_cbor_parser.
+
+(* Fold: with a visitor failing from its k-th call on, exactly the first k+1 events of the
+   fold are delivered, and the injected error is what Fold returns (when the fold has at most
+   k events, its own verdict comes back). *)
+Theorem C16_fold : forall k t v s' r, fold_into (sink0 (Some k)) t v = (s', r) ->
+  let evs := fst (fold_value t v) in
+  s_log s' = firstn (S k) evs /\ length (s_log s') = Nat.min (length evs) (S k) /\
+  ((length evs > k)%nat -> r = Some err_injected) /\
+  ((length evs <= k)%nat -> r = snd (fold_value t v) /\ s_log s' = evs).
+Proof. exact SF.Core.ExtendedProofs.C16_fold. Qed.
+Print Assumptions C16_fold.
